@@ -69,6 +69,10 @@ ROWS = {
    technique='property-based testing: Hypothesis mutation scripts (20 tree operators incl. parametrised signature-wrapping constructions) over validly signed documents + enumerated XSW catalogue, oracle = independent signature-coverage predicate (digests the element itself, no ID lookup / node search) and identity projection',
    text='Whenever an SP with a signature requirement accepts a rearranged signed response, every assertion, subject and attribute value it holds must equal content of an element covered by its own valid enveloped signature (single Reference to its own ID, verifying over present content under the issuer metadata key), and each enabled requirement must be met by such an element of the right kind; rejections are not judged.',
    note=TOOL_NOTE + ' including the first-Signature-in-document-order search that makes wrapping possible; attacks through unmodelled xmlsec features are out of reach.'),
+ 'C08': dict(level='exploration', design='3/C08',
+   technique='property-based testing: generated identities over XML Char x NameID x authn context x session expiry x sign/encrypt/algorithm settings x SP options x bindings, IdP -> SP round trip through independent delivery decoders; round-trip equality + skeleton-invariance (metamorphic) oracle',
+   text='For an IdP and SP configured from each other\'s generated metadata every response built with a combination satisfying the SP\'s requirements must be accepted and the SP must read back subject, attributes (mapped names, trimmed values), in-response-to, issuer, authn context and session expiry exactly; the element skeleton must equal that of the same response with benign values.',
+   note=TOOL_NOTE + '; frozen clock; one open known finding (SOAP + response signature + encryption) excluded by matcher.'),
 }
 NOT_YET = {}
 def main():
